@@ -168,6 +168,9 @@ pub enum Malform {
     NoContentType,
     /// truncate the body (JSON) by this many bytes from the end
     Truncate(u8),
+    /// JSON only: a complete document followed by more data (index into `TRAILERS`); trailing white space alone
+    /// keeps the document valid, anything else makes the body something that is not a JSON document
+    Trailing(u8),
 }
 
 #[derive(Clone, Debug, Serialize, Deserialize)]
@@ -281,6 +284,13 @@ const BAD: &[&str] = &[
     // undecodable bytes *after* valid escapes and raw multi-byte characters (offsets into the decoded bytes differ
     // from offsets into the raw text)
     "%20€%FF", "%41é€%FF", "a%2Fb😀%80", "%E6%97%A5本%C3", "café%FF", "%2F%2F%2F日本語%80%80",
+];
+
+/// (text appended to a complete JSON document, still a valid JSON document?)
+const TRAILERS: &[(&str, bool)] = &[
+    (" ", true), ("\n\t \r\n", true),
+    (" trailing garbage", false), ("x", false), ("}", false), ("{}", false), (",", false), (" 1", false), ("\n{\"a\":1}", false), ("]", false),
+    ("\u{0}", false), (" null", false), ("\"", false),
 ];
 
 const CT_TYPES: &[&str] = &["application", "text", "model", "image", "multipart"];
@@ -682,6 +692,15 @@ fn run(c: &Case) -> CaseResult {
                 doc.truncate(k);
                 expect_err = Some("truncated");
             }
+            if let Malform::Trailing(n) = &c.malform {
+                let (t, still_valid) = TRAILERS[*n as usize % TRAILERS.len()];
+                doc.push_str(t);
+                if !still_valid {
+                    expect_err = Some("trailing-data");
+                } else {
+                    info.lab("json:trailing-white-space");
+                }
+            }
             wire = doc.clone();
             let h = head("/", ct.as_deref());
             let b = BufferedBody::verif_from_bytes(bytes::Bytes::from(doc.into_bytes()));
@@ -888,6 +907,7 @@ pub fn case_strategy() -> impl Strategy<Value = Case> {
                 3 => (any::<u8>(), any::<u8>(), any::<u8>(), any::<u8>()).prop_map(|(a, b, c, d)| Malform::ContentType(a, b, c, d)),
                 1 => Just(Malform::NoContentType),
                 1 => any::<u8>().prop_map(Malform::Truncate),
+                1 => any::<u8>().prop_map(Malform::Trailing),
             ]
             .boxed(),
         };
@@ -1019,6 +1039,7 @@ pub fn case_from_bytes(data: &[u8]) -> Case {
         3 | 4 if body => Malform::ContentType(b(), b(), b(), b()),
         5 if body => Malform::NoContentType,
         6 if channel == Channel::Json => Malform::Truncate(b()),
+        7 if channel == Channel::Json => Malform::Trailing(b()),
         _ => Malform::None,
     };
     Case { channel, shape, values, salt, malform }
